@@ -95,7 +95,7 @@ func (s *session) nfsAs(cl drv.Client, proc uint32, args []byte) *nfsx.Res {
 			stat.Discard(false)
 			panic(abandon{err.Error()})
 		}
-		if errors.Is(err, drv.ErrTimeout) {
+		if errors.Is(err, drv.ErrTimeout) || errors.Is(err, drv.ErrConnClosed) {
 			stat.Discard(false)
 			panic(abandon{err.Error()})
 		}
